@@ -128,6 +128,29 @@ def sep_soup(rng):
     return rng.choice([' ', '\n', '', ' ']).join(items)
 
 
+STATE_FRAGS = ['begin;', 'begin transaction;', 'BEGIN;', 'commit;', 'end;',
+               'create procedure p()', 'create or replace function f() '
+               'returns int', 'create trigger tr before insert on t for each '
+               'row', 'create table t (a int);', 'begin', 'end', 'end;',
+               'if x > 0 then', 'end if;', 'else', 'while a < 3 do',
+               'end while;', 'loop', 'end loop;', 'declare x int;', 'declare',
+               'case when a then 1 end', 'case x when 1 then', 'end case;',
+               'update t set a = 1;', 'select 1;', 'select 1', 'set x = 2;',
+               'return 1;', 'for i in 1..3 loop', 'drop table if exists t;',
+               "select 'a;b';", '/* c; */', '-- c;\n', 'start transaction;',
+               'rollback;', 'insert into t values (1);', ';']
+
+
+def state_soup(rng):
+    """Statements and statement fragments that drive the splitter's block
+    state (BEGIN depth, CREATE, DECLARE, IF/CASE/LOOP levels) in random
+    order: whatever one statement leaves behind must not change how the
+    next ones are cut (each piece must survive re-splitting on its own)."""
+    n = rng.randint(2, 9)
+    sep = rng.choice([' ', '\n', '\n', '  '])
+    return sep.join(rng.choice(STATE_FRAGS) for _ in range(n))
+
+
 def shard(ctx):
     rec, rng = ctx.rec, ctx.rng
     maxlen = 2 if ctx.tier == 'quick' else 3
@@ -143,7 +166,9 @@ def shard(ctx):
         elif k % 2500 == 1900:
             check_text(ctx, 'many', hostile.many_statements(rng))
         x = rng.random()
-        if x < 0.3:
+        if x < 0.15:
+            kind, text = 'statesoup', state_soup(rng)
+        elif x < 0.3:
             kind, text = 'sepsoup', sep_soup(rng)
         elif x < 0.65:
             kind, text = hostile.hostile_text(rng)
